@@ -168,6 +168,11 @@ class Context(object):
         self._record = {}
         self._origin = {}
         self._mode = ContextMode.BEHAVE
+        # -- ENSURE: Initial root attributes are known as "set by behave".
+        #    Needed if user code masks or deletes one of them (ContextMaskWarning).
+        for attr in root_data:
+            self._record[attr] = (__file__, 0, "Context.__init__", "")
+            self._origin[attr] = ContextMode.BEHAVE
 
         # -- MODEL ENTITY REFERENCES/SUPPORT:
         # DISABLED: self.rule = None
@@ -334,6 +339,8 @@ class Context(object):
                 self._emit_warning(attr, params)
 
         self.__dict__["_root"][attr] = value
+        if attr not in self._record:
+            self._record[attr] = (__file__, 0, "Context._set_root_attribute", "")
         if attr not in self._origin:
             self._origin[attr] = self._mode
 
